@@ -1,5 +1,5 @@
 (* Shared list helpers: functional update, transposition, totals.  Axiom-free. *)
-From Coq Require Import List Arith Lia Bool.
+From Coq Require Import List Arith Lia Bool Permutation.
 Import ListNotations.
 
 Section Upd.
@@ -201,4 +201,39 @@ Proof.
   - intros _. clear IH. induction t as [|a t IHt]; simpl; [lia|].
     destruct (a =? k); simpl; lia.
   - intros [H|H]; [congruence|]. simpl. apply IH in H. lia.
+Qed.
+
+Lemma skipn_skipn_add {A} n m (l : list A) : skipn n (skipn m l) = skipn (m + n) l.
+Proof.
+  revert l; induction m as [|m IH]; intros l; simpl; auto.
+  destruct l; simpl; [destruct n; auto|apply IH].
+Qed.
+
+(* reading a contiguous range of positions out of pre ++ mid ++ post gives mid *)
+Lemma flat_map_nth_range {A} (pre mid post : list (list A)) :
+  flat_map (fun i => nth i (pre ++ mid ++ post) []) (seq (length pre) (length mid)) = concat mid.
+Proof.
+  revert pre; induction mid as [|x mid IH]; intros pre; simpl; auto.
+  rewrite app_nth2, Nat.sub_diag by lia. simpl. f_equal.
+  specialize (IH (pre ++ [x])). rewrite app_length in IH. simpl in IH.
+  rewrite Nat.add_1_r in IH. rewrite <- IH. apply flat_map_ext. intros i.
+  rewrite <- app_assoc. reflexivity.
+Qed.
+
+Lemma filter_split_perm {A} (f : A -> bool) (l : list A) :
+  Permutation (filter f l ++ filter (fun x => negb (f x)) l) l.
+Proof.
+  induction l as [|x l IH]; simpl; auto.
+  destruct (f x); simpl.
+  - constructor. exact IH.
+  - apply Permutation_sym. apply Permutation_cons_app. apply Permutation_sym. exact IH.
+Qed.
+
+Lemma Permutation_concat {A} (l l' : list (list A)) :
+  Permutation l l' -> Permutation (concat l) (concat l').
+Proof.
+  induction 1; simpl; auto.
+  - apply Permutation_app_head; auto.
+  - rewrite !app_assoc. apply Permutation_app_tail. apply Permutation_app_comm.
+  - eapply perm_trans; eauto.
 Qed.
